@@ -74,6 +74,13 @@ func c20Conn(t *Tape, sc *Scenario, idx int, pat int) (ConnScript, ConnBackendPl
 		steps = append(steps, Step{Kind: kStall, Pre: Dur(2+t.Intn(20)) * time.Millisecond})
 		steps = append(steps, Step{Kind: kQuit, Data: []byte("QUIT\r\n"), Wait: 1})
 	}
+	if t.Chance(1, 3) {
+		cp.ParkNewSession = Dur(1+t.Intn(6)) * 500 * time.Microsecond
+	}
+	if t.Chance(1, 4) {
+		cp.ParkMail = Dur(1+t.Intn(4)) * 400 * time.Microsecond
+		cp.ParkRcpt = Dur(1+t.Intn(4)) * 400 * time.Microsecond
+	}
 	cs := ConnScript{DialAt: Dur(t.Intn(8)) * 500 * time.Microsecond, Lat: drawLat(t), Steps: steps, AcceptErrs: t.Pick(5, 1, 1, 1)}
 	cs.defaults()
 	cs.AwaitTO = 2 * time.Second
@@ -260,6 +267,18 @@ func checkC20(sc *Scenario, h *History) []Violation {
 		}
 		if c.S2C.ClosedAt == 0 {
 			v("C20.conn-left-open", "connection %d was still open at the end", i)
+		}
+	}
+	// Close ends every connection: when the call that closed the server returns, every
+	// connection accepted before it was made has been closed by the server
+	for i, a := range h.Admin {
+		if a.Kind != aClose || !a.Returned || a.Err == "smtp: server already closed" {
+			continue
+		}
+		for j, c := range h.Conns {
+			if c.Accepted && c.AcceptedAt < a.CallAt && (c.S2C.ClosedAt == 0 || c.S2C.ClosedAt > a.RetAt) {
+				v("C20.close-leaves-conn", "Close (call %d, returned %q at t=%d) left connection %d open (closed at t=%d)", i, a.Err, a.RetAt-h.Start, j, c.S2C.ClosedAt-h.Start)
+			}
 		}
 	}
 	// every session logged out exactly once
